@@ -86,6 +86,28 @@ func (w *World) NewMemView(acc *Account, kind VerifierKind, prefix int) (*View, 
 	return &View{Name: fmt.Sprintf("mem:%s:%s", kind, acc.Name), Kind: kind, Store: "mem", Acc: acc, List: l, St: st, N: prefix, w: w}, nil
 }
 
+// NewShuffledMemView builds a list for acc from the first `prefix` records of the log held by an
+// in-memory storage in a layout other than chain order (root first, head last, the inner records
+// permuted): the storage's own order / prev-id bookkeeping then disagrees with the signed chain and
+// the builder has to follow the signed prev ids.
+func (w *World) NewShuffledMemView(acc *Account, kind VerifierKind, prefix int, perm func(n int, swap func(i, j int))) (*View, error) {
+	if prefix < 4 || prefix > len(w.Log) {
+		return nil, fmt.Errorf("prefix %d out of range", prefix)
+	}
+	recs := append([]*consensusproto.RawRecordWithId{}, w.Log[:prefix]...)
+	inner := recs[1 : len(recs)-1]
+	perm(len(inner), func(i, j int) { inner[i], inner[j] = inner[j], inner[i] })
+	st, err := list.NewInMemoryStorage(w.Root.Id, recs)
+	if err != nil {
+		return nil, err
+	}
+	l, err := list.BuildAclListWithIdentity(acc.Keys, st, w.Verifier(kind))
+	if err != nil {
+		return nil, err
+	}
+	return &View{Name: fmt.Sprintf("mem-shuffled:%s:%s", kind, acc.Name), Kind: kind, Store: "mem", Acc: acc, List: l, St: st, N: prefix, w: w}, nil
+}
+
 // CloneMem builds a new list of the same account / kind on a copy of this
 // view's in-memory storage (throw-away view for trial additions).
 func (v *View) CloneMem() (*View, error) {
